@@ -39,6 +39,7 @@ def run(ctx):
     src = ctx.src
     ctx.rule('R-REGMUT', 'only registerreader mutates the module-global reader registry (through any alias)')
     ctx.rule('R-ISMINEPURE', 'isMine classmethods store to no module global / class attribute')
+    ctx.rule('R-ONEOWNER', 'no isMine hands the decision to the isMine of a reader class that is not its base class')
     ctx.rule('R-SCAN', 'getreader returns the first accepting reader of the registry copy in order')
     mod = src.mod(REG)
     regs = registry_globals(mod)
@@ -295,9 +296,6 @@ def run(ctx):
     n_ismine = 0
     anchored = set(['_getreader.py', 'core/_files.py', 'register.py'])
     for m in src.all_modules():
-        if ctx.tier == 'quick' and m.relpath not in anchored and not m.relpath.endswith('Memmap.py') \
-                and 'ioapi' not in m.relpath and 'ffi1001' not in m.relpath and 'bpch' not in m.relpath and not m.relpath.startswith('noaafiles/'):
-            continue
         for q, fn in m.functions.items():
             if not q.endswith('.isMine') or '<locals>' in q:
                 continue
@@ -390,6 +388,29 @@ def run(ctx):
                                 tgt = m.functions[clsname + '.' + c.func.attr]
                             if tgt is not None:
                                 work.append((tgt, depth + 1))
+            # one owner per kind of file: an acceptance test that hands the question to the test of another reader class (not a base
+            # class of this one) makes two registered readers accept exactly the same files, and which of them answers an undeclared
+            # format is decided by the order of class creation, not by the file
+            bases = set()
+            cdef = m.classes.get(clsname) if hasattr(m, 'classes') else None
+            if cdef is not None:
+                bases = set((dotted(b) or '').split('.')[-1] for b in cdef.bases)
+            imported = {}
+            for st in iter_stmts(fn.body):
+                if isinstance(st, ast.ImportFrom):
+                    for al in st.names:
+                        imported[al.asname or al.name] = al.name
+            for st in iter_stmts(fn.body):
+                if not isinstance(st, ast.Return) or st.value is None:
+                    continue
+                for c in walk_expr(st.value):
+                    if isinstance(c, ast.Call) and isinstance(c.func, ast.Attribute) and c.func.attr == 'isMine' and isinstance(c.func.value, ast.Name):
+                        other = c.func.value.id
+                        if other in (clsparam, 'self', 'cls', 'super', clsname.split('.')[-1]) or other in bases or imported.get(other) in bases:
+                            continue
+                        ctx.violation(Finding('R-ONEOWNER', m.relpath, q, st, 'the acceptance test of %s is the one of another reader class (%s.isMine): two registered readers accept the same '
+                                              'files, and an undeclared format is read by whichever class was created last, with other dimensions and variables than the '
+                                              'reader the format name selects' % (clsname, other)))
             if bad:
                 for st, why in bad:
                     ctx.violation(Finding('R-ISMINEPURE', m.relpath, q, st,
@@ -397,7 +418,7 @@ def run(ctx):
             else:
                 ctx.ok('R-ISMINEPURE', q, 'src/PseudoNetCDF/%s %s' % (m.relpath, q), 'no global/class store')
     ctx.count('isMine classmethods analysed', n_ismine)
-    ctx.floor('isMine classmethods', n_ismine, 8 if ctx.tier == 'quick' else 20)
+    ctx.floor('isMine classmethods', n_ismine, 20)
     ctx.assumptions.append('isMine implementations are otherwise functions of the file content; reader '
                            'registration happens at import (class creation) only')
 
